@@ -23,35 +23,35 @@ Inductive mop :=
 | MPartial (stk : list node) (c : caller) (fr : option frame) (n : node).
 
 (** a completed sub-request: its effect on the state stays, its outcome is dropped *)
-Definition mpartial_fo (tord bord : oracle) (fuel : nat) (p : program) (s : state)
+Definition mpartial_fop (tord bord pord : oracle) (fuel : nat) (p : program) (s : state)
   (stk : list node) (c : caller) (fr : option frame) (n : node) : state :=
-  match query_for_o p None tord bord fuel stk c fr n (set_log s []) with Ok (_, _, _, s') => s' | _ => set_log s [] end.
+  match query_for_o p None tord bord pord fuel stk c fr n (set_log s []) with Ok (_, _, _, s') => s' | _ => set_log s [] end.
 
-Definition mstep_cancel_fo (tord bord : oracle) (fuel pfuel : nat) (p : program) (s : state) (o : mop) : state * option opres :=
+Definition mstep_cancel_fop (tord bord pord : oracle) (fuel pfuel : nat) (p : program) (s : state) (o : mop) : state * option opres :=
   match o with
-  | MUser o => let '(s', r) := step_f tord bord fuel pfuel p s o in (s', Some r)
-  | MPartial stk c fr n => (mpartial_fo tord bord fuel p s stk c fr n, None)
+  | MUser o => let '(s', r) := step_f tord bord pord fuel pfuel p s o in (s', Some r)
+  | MPartial stk c fr n => (mpartial_fop tord bord pord fuel p s stk c fr n, None)
   end.
-Fixpoint mrun_cancel_fo (tord bord : oracle) (fuel pfuel : nat) (p : program) (s : state) (ops : list mop) : list (option opres) :=
+Fixpoint mrun_cancel_fop (tord bord pord : oracle) (fuel pfuel : nat) (p : program) (s : state) (ops : list mop) : list (option opres) :=
   match ops with
   | [] => []
-  | o :: r => let '(s', x) := mstep_cancel_fo tord bord fuel pfuel p s o in x :: mrun_cancel_fo tord bord fuel pfuel p s' r
+  | o :: r => let '(s', x) := mstep_cancel_fop tord bord pord fuel pfuel p s o in x :: mrun_cancel_fop tord bord pord fuel pfuel p s' r
   end.
-Fixpoint mstate_cancel_fo (tord bord : oracle) (fuel pfuel : nat) (p : program) (s : state) (ops : list mop) : state :=
+Fixpoint mstate_cancel_fop (tord bord pord : oracle) (fuel pfuel : nat) (p : program) (s : state) (ops : list mop) : state :=
   match ops with
   | [] => s
-  | o :: r => mstate_cancel_fo tord bord fuel pfuel p (fst (mstep_cancel_fo tord bord fuel pfuel p s o)) r
+  | o :: r => mstate_cancel_fop tord bord pord fuel pfuel p (fst (mstep_cancel_fop tord bord pord fuel pfuel p s o)) r
   end.
 (** the executor invocations of every operation (for a partial request: its log) *)
-Definition mop_execs_o (tord bord : oracle) (fuel pfuel : nat) (p : program) (s : state) (o : mop) : list node :=
+Definition mop_execs_op (tord bord pord : oracle) (fuel pfuel : nat) (p : program) (s : state) (o : mop) : list node :=
   match o with
-  | MUser o => r_execs (snd (step_f tord bord fuel pfuel p s o))
-  | MPartial stk c fr n => rev (s_log (mpartial_fo tord bord fuel p s stk c fr n))
+  | MUser o => r_execs (snd (step_f tord bord pord fuel pfuel p s o))
+  | MPartial stk c fr n => rev (s_log (mpartial_fop tord bord pord fuel p s stk c fr n))
   end.
-Fixpoint mexecs_cancel_fo (tord bord : oracle) (fuel pfuel : nat) (p : program) (s : state) (ops : list mop) : list (list node) :=
+Fixpoint mexecs_cancel_fop (tord bord pord : oracle) (fuel pfuel : nat) (p : program) (s : state) (ops : list mop) : list (list node) :=
   match ops with
   | [] => []
-  | o :: r => mop_execs_o tord bord fuel pfuel p s o :: mexecs_cancel_fo tord bord fuel pfuel p (fst (mstep_cancel_fo tord bord fuel pfuel p s o)) r
+  | o :: r => mop_execs_op tord bord pord fuel pfuel p s o :: mexecs_cancel_fop tord bord pord fuel pfuel p (fst (mstep_cancel_fop tord bord pord fuel pfuel p s o)) r
   end.
 
 Definition mapply_op (inp : inputs) (o : mop) : inputs :=
@@ -67,13 +67,20 @@ Definition ext_step_c (acc : xenv * list (N * Z)) (oe : mop * list node) : xenv 
 Definition ext_after_c (ops : list mop) (exs : list (list node)) : xenv :=
   fst (fold_left ext_step_c (combine ops exs) (no_ext, [])).
 
+(** the dirty propagation in list order *)
+Definition mpartial_fo (tord bord : oracle) := mpartial_fop tord bord ord_id.
+Definition mstep_cancel_fo (tord bord : oracle) := mstep_cancel_fop tord bord ord_id.
+Definition mrun_cancel_fo (tord bord : oracle) := mrun_cancel_fop tord bord ord_id.
+Definition mstate_cancel_fo (tord bord : oracle) := mstate_cancel_fop tord bord ord_id.
+Definition mop_execs_o (tord bord : oracle) := mop_execs_op tord bord ord_id.
+Definition mexecs_cancel_fo (tord bord : oracle) := mexecs_cancel_fop tord bord ord_id.
 (** the schedule in list order *)
-Definition mpartial_f := mpartial_fo ord_id ord_id.
-Definition mstep_cancel_f := mstep_cancel_fo ord_id ord_id.
-Definition mrun_cancel_f := mrun_cancel_fo ord_id ord_id.
-Definition mstate_cancel_f := mstate_cancel_fo ord_id ord_id.
-Definition mop_execs := mop_execs_o ord_id ord_id.
-Definition mexecs_cancel_f := mexecs_cancel_fo ord_id ord_id.
+Definition mpartial_f := mpartial_fop ord_id ord_id ord_id.
+Definition mstep_cancel_f := mstep_cancel_fop ord_id ord_id ord_id.
+Definition mrun_cancel_f := mrun_cancel_fop ord_id ord_id ord_id.
+Definition mstate_cancel_f := mstate_cancel_fop ord_id ord_id ord_id.
+Definition mop_execs := mop_execs_op ord_id ord_id ord_id.
+Definition mexecs_cancel_f := mexecs_cancel_fop ord_id ord_id ord_id.
 
 (** * the side condition *)
 (** [sreach p m n] ([Engine/MdlRunBase.v]): [m] reads [n], directly or indirectly *)
@@ -82,27 +89,29 @@ Definition mpartial_ok (p : program) (s : state) (stk : list node) (c : caller) 
   (is_cq c = false -> stk = []) /\
   MNPq c n s.
 
-Definition mcsessions_fuelled_o (tord bord : oracle) (fuel pfuel : nat) (p : program) (ops : list mop) (i : nat) : Prop :=
+Definition mcsessions_fuelled_op (tord bord pord : oracle) (fuel pfuel : nat) (p : program) (ops : list mop) (i : nat) : Prop :=
   forall k sets b x, (k < i)%nat -> nth_error ops k = Some (MUser (OSession sets b)) ->
-    nth_error (mrun_cancel_fo tord bord fuel pfuel p init_state ops) k = Some (Some x) -> r_out x <> RFuel.
-Definition mpartials_ok_o (tord bord : oracle) (fuel pfuel : nat) (p : program) (ops : list mop) (i : nat) : Prop :=
+    nth_error (mrun_cancel_fop tord bord pord fuel pfuel p init_state ops) k = Some (Some x) -> r_out x <> RFuel.
+Definition mpartials_ok_op (tord bord pord : oracle) (fuel pfuel : nat) (p : program) (ops : list mop) (i : nat) : Prop :=
   forall k stk c fr n, (k < i)%nat -> nth_error ops k = Some (MPartial stk c fr n) ->
-    mpartial_ok p (mstate_cancel_fo tord bord fuel pfuel p init_state (firstn k ops)) stk c n.
+    mpartial_ok p (mstate_cancel_fop tord bord pord fuel pfuel p init_state (firstn k ops)) stk c n.
 
-Definition mcsessions_fuelled := mcsessions_fuelled_o ord_id ord_id.
-Definition mpartials_ok := mpartials_ok_o ord_id ord_id.
+Definition mcsessions_fuelled_o (tord bord : oracle) := mcsessions_fuelled_op tord bord ord_id.
+Definition mpartials_ok_o (tord bord : oracle) := mpartials_ok_op tord bord ord_id.
+Definition mcsessions_fuelled := mcsessions_fuelled_op ord_id ord_id ord_id.
+Definition mpartials_ok := mpartials_ok_op ord_id ord_id ord_id.
 
-Definition model_cancel_sound_x_statement_fo : Prop :=
-  forall tord bord fuel pfuel p ops i n r z, order_ok tord -> order_ok bord ->
-    wf_model_x p -> mcsessions_fuelled_o tord bord fuel pfuel p ops i -> mpartials_ok_o tord bord fuel pfuel p ops i ->
+Definition model_cancel_sound_x_statement_fop : Prop :=
+  forall tord bord pord fuel pfuel p ops i n r z, order_ok tord -> order_ok bord -> order_ok pord ->
+    wf_model_x p -> mcsessions_fuelled_op tord bord pord fuel pfuel p ops i -> mpartials_ok_op tord bord pord fuel pfuel p ops i ->
     nth_error ops i = Some (MUser (OQuery n)) ->
-    nth_error (mrun_cancel_fo tord bord fuel pfuel p init_state ops) i = Some (Some r) -> r_out r = RValue z ->
+    nth_error (mrun_cancel_fop tord bord pord fuel pfuel p init_state ops) i = Some (Some r) -> r_out r = RValue z ->
     MdlSpecX p (minputs_after (firstn i ops),
-                ext_after_c (firstn (S i) ops) (firstn (S i) (mexecs_cancel_fo tord bord fuel pfuel p init_state ops))) n z.
+                ext_after_c (firstn (S i) ops) (firstn (S i) (mexecs_cancel_fop tord bord pord fuel pfuel p init_state ops))) n z.
 
 Section Cancel.
 Variable p : program.
-Variables tord bord : state -> node -> list node -> list node.
+Variables tord bord pord : state -> node -> list node -> list node.
 Variable rk : node -> nat.
 Hypothesis Hrk : forall n e d, alookup p n = Some e -> In d (expr_reads e) -> (rk d < rk n)%nat.
 Hypothesis Hproj : forall n e d, alookup p n = Some e -> nkind n = KProjection -> In d (expr_reads e) ->
@@ -110,38 +119,39 @@ Hypothesis Hproj : forall n e d, alookup p n = Some e -> nkind n = KProjection -
 Hypothesis Hkeys : forall n e, alookup p n = Some e -> is_mexec_kind (nkind n) = true.
 Hypothesis Htord : forall s x l y, In y (tord s x l) <-> In y l.
 Hypothesis Hbord : forall s x l y, In y (bord s x l) <-> In y l.
+Hypothesis Hpord : forall s x l y, In y (pord s x l) <-> In y l.
 
 (** a completed sub-request keeps the invariant, whatever the caller, flags, frame *)
 Lemma partial_query : forall fuel env s stk c fr n o fr' ms s1,
   BInv p rk env s -> mpartial_ok p s stk c n ->
-  query_for_o p None tord bord fuel stk c fr n (set_log s []) = Ok (o, fr', ms, s1) ->
+  query_for_o p None tord bord pord fuel stk c fr n (set_log s []) = Ok (o, fr', ms, s1) ->
   MInv p rk (set_log s []) [] env s1.
 Proof.
   intros fuel env s stk c fr n o fr' ms s1 HI0 (Hs & Hroot & Hnp) Eq.
   assert (Hxm : XMode c []) by (destruct c; cbn; auto).
-  destruct (proj1 (msound_all p tord bord rk (set_log s []) Hrk Hproj Hkeys Htord Hbord fuel) env [] [] stk c fr n _ o fr' ms s1
+  destruct (proj1 (msound_all p tord bord pord rk (set_log s []) Hrk Hproj Hkeys Htord Hbord Hpord fuel) env [] [] stk c fr n _ o fr' ms s1
               HI0 Hs Hroot Hnp Hxm (or_introl eq_refl) Eq) as (HI1 & _).
   exact HI1.
 Qed.
 
 Lemma partial_inv : forall fuel env s stk c fr n,
-  BInv p rk env s -> mpartial_ok p s stk c n -> BInv p rk env (mpartial_fo tord bord fuel p s stk c fr n).
+  BInv p rk env s -> mpartial_ok p s stk c n -> BInv p rk env (mpartial_fop tord bord pord fuel p s stk c fr n).
 Proof.
-  intros fuel env s stk c fr n HI0 Hok. unfold mpartial_fo.
-  destruct (query_for_o p None tord bord fuel stk c fr n (set_log s [])) as [[[[o fr'] ms] s1]| | |] eqn:Eq;
+  intros fuel env s stk c fr n HI0 Hok. unfold mpartial_fop.
+  destruct (query_for_o p None tord bord pord fuel stk c fr n (set_log s [])) as [[[[o fr'] ms] s1]| | |] eqn:Eq;
     try (eapply (BInv_of p rk); exact HI0).
   eapply (BInv_of p rk). eapply partial_query; eauto.
 Qed.
 
 Lemma partial_ri : forall fuel env s stk c fr n acc,
   BInv p rk env s -> mpartial_ok p s stk c n -> RI s acc ->
-  RI (mpartial_fo tord bord fuel p s stk c fr n) (ext_step_c acc (MPartial stk c fr n, rev (s_log (mpartial_fo tord bord fuel p s stk c fr n)))).
+  RI (mpartial_fop tord bord pord fuel p s stk c fr n) (ext_step_c acc (MPartial stk c fr n, rev (s_log (mpartial_fop tord bord pord fuel p s stk c fr n)))).
 Proof.
   intros fuel env s stk c fr n [xe w] HI0 Hok [Rw Rx]. cbn [fst snd] in Rw, Rx. unfold ext_step_c. cbn [mworld_op].
-  unfold mpartial_fo. destruct (query_for_o p None tord bord fuel stk c fr n (set_log s [])) as [[[[o fr'] ms] s1]| | |] eqn:Eq;
+  unfold mpartial_fop. destruct (query_for_o p None tord bord pord fuel stk c fr n (set_log s [])) as [[[[o fr'] ms] s1]| | |] eqn:Eq;
     try (split; [exact Rw|]; cbn [fst set_log s_log rev nmem existsb]; exact Rx).
   pose proof (partial_query _ _ _ _ _ _ _ _ _ _ _ HI0 Hok Eq) as HI1.
-  pose proof (proj1 (mworld_all p tord bord fuel) _ _ _ _ _ _ _ _ _ Eq) as HW. unfold Wd in HW. cbn [set_log s_world] in HW.
+  pose proof (proj1 (mworld_all p tord bord pord fuel) _ _ _ _ _ _ _ _ _ Eq) as [HW _]. cbn [set_log s_world] in HW.
   split; [cbn [snd]; congruence|].
   cbn [fst]. intros k i Hi.
   destruct (mi_kind _ _ _ _ _ _ _ HI1 (ext_node k) i Hi) as [(_ & _ & Ko & _ & K5)|(K & _)]; [|discriminate].
@@ -168,58 +178,58 @@ Definition menv_step (env : menv) (s : state) (o : mop) (s' : state) : menv :=
 Lemma mrun_cancel_sound : forall fuel pfuel ops s env acc i n r z,
   BInv p rk env s -> RI s acc ->
   (forall k sets b x, (k < i)%nat -> nth_error ops k = Some (MUser (OSession sets b)) ->
-     nth_error (mrun_cancel_fo tord bord fuel pfuel p s ops) k = Some (Some x) -> r_out x <> RFuel) ->
+     nth_error (mrun_cancel_fop tord bord pord fuel pfuel p s ops) k = Some (Some x) -> r_out x <> RFuel) ->
   (forall k stk c fr m, (k < i)%nat -> nth_error ops k = Some (MPartial stk c fr m) ->
-     mpartial_ok p (mstate_cancel_fo tord bord fuel pfuel p s (firstn k ops)) stk c m) ->
+     mpartial_ok p (mstate_cancel_fop tord bord pord fuel pfuel p s (firstn k ops)) stk c m) ->
   nth_error ops i = Some (MUser (OQuery n)) ->
-  nth_error (mrun_cancel_fo tord bord fuel pfuel p s ops) i = Some (Some r) ->
+  nth_error (mrun_cancel_fop tord bord pord fuel pfuel p s ops) i = Some (Some r) ->
   r_out r = RValue z ->
   MSpecI p (fold_left mapply_op (firstn i ops) (fst env),
-            fst (fold_left ext_step_c (combine (firstn (S i) ops) (firstn (S i) (mexecs_cancel_fo tord bord fuel pfuel p s ops))) acc)) n z.
+            fst (fold_left ext_step_c (combine (firstn (S i) ops) (firstn (S i) (mexecs_cancel_fop tord bord pord fuel pfuel p s ops))) acc)) n z.
 Proof.
   intros fuel pfuel. induction ops as [|o rest IH]; intros s env acc i n r z HI HR Hfuel Hpok Hop Hres Hz.
   - destruct i; discriminate.
-  - cbn [mrun_cancel_fo mexecs_cancel_fo] in Hres, Hfuel |- *.
-    destruct (mstep_cancel_fo tord bord fuel pfuel p s o) as [s' x] eqn:Es.
+  - cbn [mrun_cancel_fop mexecs_cancel_fop] in Hres, Hfuel |- *.
+    destruct (mstep_cancel_fop tord bord pord fuel pfuel p s o) as [s' x] eqn:Es.
     destruct i as [|i].
-    + cbn in Hop, Hres. inversion Hop. subst o. cbn [mstep_cancel_fo] in Es.
-      destruct (step_f tord bord fuel pfuel p s (OQuery n)) as [s1 x1] eqn:E1. inversion Es. subst s' x. inversion Hres. subst x1.
-      cbn [firstn fold_left combine mop_execs_o]. rewrite E1. cbn [snd].
-      pose proof (mrun_sound_x p tord bord rk Hrk Hproj Hkeys Htord Hbord fuel pfuel [OQuery n] s env acc 0%nat n r z HI HR) as Q.
+    + cbn in Hop, Hres. inversion Hop. subst o. cbn [mstep_cancel_fop] in Es.
+      destruct (step_f tord bord pord fuel pfuel p s (OQuery n)) as [s1 x1] eqn:E1. inversion Es. subst s' x. inversion Hres. subst x1.
+      cbn [firstn fold_left combine mop_execs_op]. rewrite E1. cbn [snd].
+      pose proof (mrun_sound_x p tord bord pord rk Hrk Hproj Hkeys Htord Hbord Hpord fuel pfuel [OQuery n] s env acc 0%nat n r z HI HR) as Q.
       cbn [run_history_f] in Q. rewrite E1 in Q. cbn [firstn fold_left combine nth_error] in Q.
       apply Q; auto. intros k sets b rk0 Hk. lia.
     + cbn [nth_error firstn fold_left combine] in *.
-      destruct o as [o|stk c fr m]; cbn [mstep_cancel_fo] in Es.
-      * destruct (step_f tord bord fuel pfuel p s o) as [s1 x1] eqn:E1. inversion Es. subst s' x.
+      destruct o as [o|stk c fr m]; cbn [mstep_cancel_fop] in Es.
+      * destruct (step_f tord bord pord fuel pfuel p s o) as [s1 x1] eqn:E1. inversion Es. subst s' x.
         assert (Hf0 : forall sets b, o = OSession sets b -> r_out x1 <> RFuel).
         { intros sets b ->. apply (Hfuel 0%nat sets b x1); [lia|reflexivity|reflexivity]. }
-        pose proof (mstep_inv p tord bord rk Hrk Hproj Hkeys Htord Hbord _ _ _ _ _ _ _ HI E1 Hf0) as HI'.
-        pose proof (ri_step p tord bord rk Hrk Hproj Hkeys Htord Hbord _ _ _ _ _ _ _ _ HI HR E1 Hf0) as HR'.
-        cbn [mop_execs_o mapply_op]. rewrite E1. cbn [snd fst]. rewrite <- (env_step_inputs env s o s1).
+        pose proof (mstep_inv p tord bord pord rk Hrk Hproj Hkeys Htord Hbord Hpord _ _ _ _ _ _ _ HI E1 Hf0) as HI'.
+        pose proof (ri_step p tord bord pord rk Hrk Hproj Hkeys Htord Hbord Hpord _ _ _ _ _ _ _ _ HI HR E1 Hf0) as HR'.
+        cbn [mop_execs_op mapply_op]. rewrite E1. cbn [snd fst]. rewrite <- (env_step_inputs env s o s1).
         change (ext_step_c acc (MUser o, r_execs x1)) with (ext_step acc (o, x1)).
         eapply (IH s1 (env_step env s o s1) (ext_step acc (o, x1)) i n r z HI' HR'); eauto.
         -- intros k sets b x0 Hk Hk1 Hk2. apply (Hfuel (S k) sets b x0); [lia|exact Hk1|exact Hk2].
-        -- intros k stk c fr m Hk Hk1. pose proof (Hpok (S k) stk c fr m) as Q. cbn [firstn mstate_cancel_fo mstep_cancel_fo nth_error] in Q.
+        -- intros k stk c fr m Hk Hk1. pose proof (Hpok (S k) stk c fr m) as Q. cbn [firstn mstate_cancel_fop mstep_cancel_fop nth_error] in Q.
            rewrite E1 in Q. cbn [fst] in Q. apply Q; [lia|exact Hk1].
       * inversion Es. subst s' x.
         assert (Hok : mpartial_ok p s stk c m).
         { apply (Hpok 0%nat stk c fr m); [lia|reflexivity]. }
         pose proof (partial_inv fuel env s stk c fr m HI Hok) as HI'.
         pose proof (partial_ri fuel env s stk c fr m acc HI Hok HR) as HR'.
-        cbn [mop_execs_o mapply_op fst].
+        cbn [mop_execs_op mapply_op fst].
         eapply (IH _ env _ i n r z HI' HR'); eauto.
         -- intros k sets b x0 Hk Hk1 Hk2. apply (Hfuel (S k) sets b x0); [lia|exact Hk1|exact Hk2].
-        -- intros k stk0 c0 fr0 m0 Hk Hk1. pose proof (Hpok (S k) stk0 c0 fr0 m0) as Q. cbn [firstn mstate_cancel_fo mstep_cancel_fo nth_error fst] in Q.
+        -- intros k stk0 c0 fr0 m0 Hk Hk1. pose proof (Hpok (S k) stk0 c0 fr0 m0) as Q. cbn [firstn mstate_cancel_fop mstep_cancel_fop nth_error fst] in Q.
            apply Q; [lia|exact Hk1].
 Qed.
 End Cancel.
 
-Theorem model_cancel_sound_x_fo : model_cancel_sound_x_statement_fo.
+Theorem model_cancel_sound_x_fop : model_cancel_sound_x_statement_fop.
 Proof.
-  intros tord bord fuel pfuel p ops i n r z Ht Hb Hwf Hfuel Hpok Hop Hres Hz.
+  intros tord bord pord fuel pfuel p ops i n r z Ht Hb Hp Hwf Hfuel Hpok Hop Hres Hz.
   destruct (wf_model_x_facts p Hwf) as (rk & Hrk & Hproj & Hkeys). apply MdlSpecX_MSpecI.
   unfold minputs_after, ext_after_c.
-  apply (mrun_cancel_sound p tord bord rk Hrk Hproj Hkeys (order_ok_In _ Ht) (order_ok_In _ Hb)
+  apply (mrun_cancel_sound p tord bord pord rk Hrk Hproj Hkeys (order_ok_In _ Ht) (order_ok_In _ Hb) (order_ok_In _ Hp)
            fuel pfuel ops init_state init_env (no_ext, []) i n r z); auto.
   - apply (MInv_init p rk noE).
   - split; [reflexivity|]. intros k j Hj. discriminate.
@@ -236,10 +246,24 @@ Definition model_cancel_sound_x_statement_f : Prop :=
 Theorem model_cancel_sound_x_f : model_cancel_sound_x_statement_f.
 Proof.
   intros fuel pfuel p ops i n r z.
-  exact (model_cancel_sound_x_fo ord_id ord_id fuel pfuel p ops i n r z ord_id_ok ord_id_ok).
+  exact (model_cancel_sound_x_fop ord_id ord_id ord_id fuel pfuel p ops i n r z ord_id_ok ord_id_ok ord_id_ok).
 Qed.
 
 (** every order, the fuel the model fixes ([MUser] operations are then [Model.step_o]) *)
+Definition model_cancel_sound_x_statement_op : Prop :=
+  forall tord bord pord p ops i n r z, order_ok tord -> order_ok bord -> order_ok pord ->
+    wf_model_x p -> mcsessions_fuelled_op tord bord pord fuel0 4000 p ops i -> mpartials_ok_op tord bord pord fuel0 4000 p ops i ->
+    nth_error ops i = Some (MUser (OQuery n)) ->
+    nth_error (mrun_cancel_fop tord bord pord fuel0 4000 p init_state ops) i = Some (Some r) -> r_out r = RValue z ->
+    MdlSpecX p (minputs_after (firstn i ops),
+                ext_after_c (firstn (S i) ops) (firstn (S i) (mexecs_cancel_fop tord bord pord fuel0 4000 p init_state ops))) n z.
+Theorem model_cancel_sound_x_op : model_cancel_sound_x_statement_op.
+Proof. intros tord bord pord p ops i n r z. apply (model_cancel_sound_x_fop tord bord pord fuel0 4000%nat). Qed.
+Lemma mstep_cancel_user_op : forall tord bord pord p s o,
+  mstep_cancel_fop tord bord pord fuel0 4000 p s (MUser o) = (let '(s', r) := step_op tord bord pord p s o in (s', Some r)).
+Proof. intros. cbn [mstep_cancel_fop]. rewrite <- step_op_is_step_f. reflexivity. Qed.
+
+(** the dirty propagation in list order *)
 Definition model_cancel_sound_x_statement_o : Prop :=
   forall tord bord p ops i n r z, order_ok tord -> order_ok bord ->
     wf_model_x p -> mcsessions_fuelled_o tord bord fuel0 4000 p ops i -> mpartials_ok_o tord bord fuel0 4000 p ops i ->
@@ -248,10 +272,13 @@ Definition model_cancel_sound_x_statement_o : Prop :=
     MdlSpecX p (minputs_after (firstn i ops),
                 ext_after_c (firstn (S i) ops) (firstn (S i) (mexecs_cancel_fo tord bord fuel0 4000 p init_state ops))) n z.
 Theorem model_cancel_sound_x_o : model_cancel_sound_x_statement_o.
-Proof. intros tord bord p ops i n r z. apply (model_cancel_sound_x_fo tord bord fuel0 4000%nat). Qed.
+Proof.
+  intros tord bord p ops i n r z Ht Hb.
+  exact (model_cancel_sound_x_op tord bord ord_id p ops i n r z Ht Hb ord_id_ok).
+Qed.
 Lemma mstep_cancel_user_o : forall tord bord p s o,
   mstep_cancel_fo tord bord fuel0 4000 p s (MUser o) = (let '(s', r) := step_o tord bord p s o in (s', Some r)).
-Proof. intros. cbn [mstep_cancel_fo]. rewrite <- step_o_is_step_f. reflexivity. Qed.
+Proof. intros. exact (mstep_cancel_user_op tord bord ord_id p s o). Qed.
 
 (** with the fuel the model fixes *)
 Definition model_cancel_sound_x_statement : Prop :=
@@ -264,21 +291,21 @@ Definition model_cancel_sound_x_statement : Prop :=
 Theorem model_cancel_sound_x : model_cancel_sound_x_statement.
 Proof. intros p ops i n r z. apply (model_cancel_sound_x_f fuel0 4000%nat). Qed.
 Lemma mstep_cancel_user : forall p s o, mstep_cancel_f fuel0 4000 p s (MUser o) = (let '(s', r) := step p s o in (s', Some r)).
-Proof. intros. unfold mstep_cancel_f. cbn [mstep_cancel_fo]. rewrite <- step_is_step_f. reflexivity. Qed.
+Proof. intros. unfold mstep_cancel_f. cbn [mstep_cancel_fop]. rewrite <- step_is_step_f. reflexivity. Qed.
 
 (** without external inputs *)
 Definition mop_in_scope (o : mop) : Prop := match o with MUser o => op_in_scope o | MPartial _ _ _ _ => True end.
 Definition model_cancel_sound_g_statement_f : Prop :=
-  forall tord bord fuel pfuel p ops i n r z, order_ok tord -> order_ok bord ->
+  forall tord bord pord fuel pfuel p ops i n r z, order_ok tord -> order_ok bord -> order_ok pord ->
     wf_model_g p -> Forall mop_in_scope ops ->
-    mcsessions_fuelled_o tord bord fuel pfuel p ops i -> mpartials_ok_o tord bord fuel pfuel p ops i ->
+    mcsessions_fuelled_op tord bord pord fuel pfuel p ops i -> mpartials_ok_op tord bord pord fuel pfuel p ops i ->
     nth_error ops i = Some (MUser (OQuery n)) ->
-    nth_error (mrun_cancel_fo tord bord fuel pfuel p init_state ops) i = Some (Some r) -> r_out r = RValue z ->
+    nth_error (mrun_cancel_fop tord bord pord fuel pfuel p init_state ops) i = Some (Some r) -> r_out r = RValue z ->
     MdlSpec p (minputs_after (firstn i ops)) n z.
 Theorem model_cancel_sound_g_f : model_cancel_sound_g_statement_f.
 Proof.
-  intros tord bord fuel pfuel p ops i n r z Ht Hb Hwf Hsc Hfuel Hpok Hop Hres Hz.
-  pose proof (model_cancel_sound_x_fo tord bord fuel pfuel p ops i n r z Ht Hb (wf_model_x_of p Hwf) Hfuel Hpok Hop Hres Hz) as H.
+  intros tord bord pord fuel pfuel p ops i n r z Ht Hb Hp Hwf Hsc Hfuel Hpok Hop Hres Hz.
+  pose proof (model_cancel_sound_x_fop tord bord pord fuel pfuel p ops i n r z Ht Hb Hp (wf_model_x_of p Hwf) Hfuel Hpok Hop Hres Hz) as H.
   apply MdlSpecX_MSpecI in H. apply MdlSpec_MSpecI.
   apply (msev_noext p _ no_ext (wf_model_g_noext p Hwf)) in H; [exact H|].
   intros d [<-|[]]. assert (Hn : mop_in_scope (MUser (OQuery n))).
@@ -289,6 +316,19 @@ Qed.
 (** * C08: the engine after a crash.  [before] is the history up to the crash, [partial] the
     completed sub-requests of the request in flight; the process restarts (volatile fields are
     lost) and [after] follows *)
+Definition model_sound_after_crash_x_statement_op : Prop :=
+  forall tord bord pord fuel pfuel p before partial after i n r z, order_ok tord -> order_ok bord -> order_ok pord ->
+    let ops := map MUser before ++ partial ++ [MUser ORestart] ++ map MUser after in
+    wf_model_x p -> mcsessions_fuelled_op tord bord pord fuel pfuel p ops i -> mpartials_ok_op tord bord pord fuel pfuel p ops i ->
+    nth_error ops i = Some (MUser (OQuery n)) ->
+    nth_error (mrun_cancel_fop tord bord pord fuel pfuel p init_state ops) i = Some (Some r) -> r_out r = RValue z ->
+    MdlSpecX p (minputs_after (firstn i ops),
+                ext_after_c (firstn (S i) ops) (firstn (S i) (mexecs_cancel_fop tord bord pord fuel pfuel p init_state ops))) n z.
+Theorem model_sound_after_crash_x_op : model_sound_after_crash_x_statement_op.
+Proof.
+  intros tord bord pord fuel pfuel p before partial after i n r z Ht Hb Hp ops.
+  exact (model_cancel_sound_x_fop tord bord pord fuel pfuel p ops i n r z Ht Hb Hp).
+Qed.
 Definition model_sound_after_crash_x_statement_o : Prop :=
   forall tord bord fuel pfuel p before partial after i n r z, order_ok tord -> order_ok bord ->
     let ops := map MUser before ++ partial ++ [MUser ORestart] ++ map MUser after in
@@ -299,8 +339,8 @@ Definition model_sound_after_crash_x_statement_o : Prop :=
                 ext_after_c (firstn (S i) ops) (firstn (S i) (mexecs_cancel_fo tord bord fuel pfuel p init_state ops))) n z.
 Theorem model_sound_after_crash_x_o : model_sound_after_crash_x_statement_o.
 Proof.
-  intros tord bord fuel pfuel p before partial after i n r z Ht Hb ops.
-  exact (model_cancel_sound_x_fo tord bord fuel pfuel p ops i n r z Ht Hb).
+  intros tord bord fuel pfuel p before partial after i n r z Ht Hb.
+  exact (model_sound_after_crash_x_op tord bord ord_id fuel pfuel p before partial after i n r z Ht Hb ord_id_ok).
 Qed.
 Definition model_sound_after_crash_x_statement : Prop :=
   forall fuel pfuel p before partial after i n r z,
@@ -314,18 +354,22 @@ Theorem model_sound_after_crash_x : model_sound_after_crash_x_statement.
 Proof. intros fuel pfuel p before partial after i n r z ops. exact (model_cancel_sound_x_f fuel pfuel p ops i n r z). Qed.
 
 (** a sub-request that does not complete (panic, fuel) leaves the persisted state untouched *)
-Lemma mpartial_unchanged_o : forall tord bord fuel p s stk c fr n,
-  (forall o fr' ms s', query_for_o p None tord bord fuel stk c fr n (set_log s []) <> Ok (o, fr', ms, s')) ->
-  mpartial_fo tord bord fuel p s stk c fr n = set_log s [].
+Lemma mpartial_unchanged_op : forall tord bord pord fuel p s stk c fr n,
+  (forall o fr' ms s', query_for_o p None tord bord pord fuel stk c fr n (set_log s []) <> Ok (o, fr', ms, s')) ->
+  mpartial_fop tord bord pord fuel p s stk c fr n = set_log s [].
 Proof.
-  intros tord bord fuel p s stk c fr n H. unfold mpartial_fo.
-  destruct (query_for_o p None tord bord fuel stk c fr n (set_log s [])) as [[[[o fr'] ms] s']| | |]; try reflexivity.
+  intros tord bord pord fuel p s stk c fr n H. unfold mpartial_fop.
+  destruct (query_for_o p None tord bord pord fuel stk c fr n (set_log s [])) as [[[[o fr'] ms] s']| | |]; try reflexivity.
   exfalso. eapply H. reflexivity.
 Qed.
+Lemma mpartial_unchanged_o : forall tord bord fuel p s stk c fr n,
+  (forall o fr' ms s', query_for_o p None tord bord ord_id fuel stk c fr n (set_log s []) <> Ok (o, fr', ms, s')) ->
+  mpartial_fo tord bord fuel p s stk c fr n = set_log s [].
+Proof. intros tord bord. exact (mpartial_unchanged_op tord bord ord_id). Qed.
 Lemma mpartial_unchanged : forall fuel p s stk c fr n,
   (forall o fr' ms s', query_for p None fuel stk c fr n (set_log s []) <> Ok (o, fr', ms, s')) ->
   mpartial_f fuel p s stk c fr n = set_log s [].
-Proof. intros fuel p s stk c fr n. exact (mpartial_unchanged_o ord_id ord_id fuel p s stk c fr n). Qed.
+Proof. intros fuel p s stk c fr n. exact (mpartial_unchanged_op ord_id ord_id ord_id fuel p s stk c fr n). Qed.
 
 (** * examples: a cancelled repair whose completed part is reused, and the need for the side
     condition (a NON-pedantic sub-request started before the transitive firewall callees it
@@ -382,9 +426,10 @@ Proof.
   pose proof (MSpecI_det _ _ _ _ _ H1 H2). discriminate.
 Qed.
 
-Print Assumptions model_cancel_sound_x_fo.
+Print Assumptions model_cancel_sound_x_fop.
 Print Assumptions model_cancel_sound_x_o.
-Print Assumptions model_sound_after_crash_x_o.
+Print Assumptions model_cancel_sound_x_op.
+Print Assumptions model_sound_after_crash_x_op.
 Print Assumptions model_cancel_sound_x_f.
 Print Assumptions model_cancel_sound_x.
 Print Assumptions model_cancel_sound_g_f.
